@@ -884,6 +884,13 @@ class System:
 
     def begin(self, base, base_side=0):
         self.build_base(base, base_side)
+        # a freshly connected provider's event stream starts "now": what the accounts already hold is found by the start-up walk
+        # (the mock would otherwise replay the creation of the base tree as events of the first session)
+        for prov in self.eng:
+            try:
+                prov.current_cursor = prov.latest_cursor
+            except Exception:
+                pass
         self.start_engine()
         n0 = len(self.rec.events)
         ok = self.quiesce()
@@ -916,18 +923,19 @@ class System:
                 if "_cursor" in tag:
                     for eid in list(rows):
                         self.storage.inner.delete(tag, eid)
-            # a new process has freshly connected providers: with no stored cursor the event stream starts "now" (the harness
-            # re-uses the provider objects, whose in-memory cursor would otherwise still deliver what happened while down)
-            for prov in self.eng:
-                try:
-                    prov.current_cursor = prov.latest_cursor
-                except Exception:
-                    pass
         elif variant == "cursorRejected" and self.storage is not None:
             for tag, rows in list(self.storage.inner.read_all().items()):
                 if "_cursor" in tag:
                     for eid in list(rows):
                         self.storage.inner.update(tag, "bogus-cursor", eid)
+        # a new process has freshly connected providers whose event stream starts "now"; the engine positions it at the cursor
+        # it finds in storage (the harness re-uses the provider objects: their in-memory cursor would otherwise still deliver
+        # what happened while the engine was down, whatever the engine stored)
+        for prov in self.eng:
+            try:
+                prov.current_cursor = prov.latest_cursor
+            except Exception:
+                pass
         self.rec.ev("Restart", variant=variant, post=self.trees())
         self.start_engine()
 
